@@ -514,8 +514,25 @@ def r3(ctx):
     ctx.check(ok, "C04.R3", "rehydration keeps the recorded reduced flags, factor order and scale", rh.where, ctx.construct(rh, text="rehydrate"),
               f"rehydrate returns `{t[:150]}`")
     cp = P.method("formulaic.materializers.types.scoped_term.ScopedTerm", "copy")
-    t = norm(cp.node)
-    ok = "ScopedFactor(factor=factor.factor.replace(values=None), reduced=factor.reduced)" in t and "return ScopedTerm(factors, scale=self.scale)" in t
+    try:
+        co = sym.outcomes(cp.node)
+    except sym.Unmodelled as e:
+        raise AnalysisError(f"C04.R3: ScopedTerm.copy cannot be summarised: {e}")
+    bare = sym.eval_under(co, {"without_values": True}, kinds=("return", "fall"))
+    ok = len(bare) == 1 and bare[0][1] is not None
+    if ok:
+        m = sym.pm_any(["ScopedTerm(ANY_f, scale=self.scale)", "ScopedTerm(factors=ANY_f, scale=self.scale)"], bare[0][1])
+        fx = None
+        if m is not None:
+            fx = ast.parse(m["ANY_f"], mode="eval").body
+            while isinstance(fx, ast.Call) and norm(fx.func) in ("list", "tuple") and len(fx.args) == 1:
+                fx = fx.args[0]
+        ok = isinstance(fx, (ast.ListComp, ast.GeneratorExp)) and len(fx.generators) == 1 and not fx.generators[0].ifs \
+            and norm(fx.generators[0].iter) == "self.factors" and isinstance(fx.generators[0].target, ast.Name)
+        if ok:
+            v = fx.generators[0].target.id
+            ok = sym.pm_any([f"ScopedFactor(factor={v}.factor.replace(values=None), reduced={v}.reduced)", f"ScopedFactor({v}.factor.replace(values=None), {v}.reduced)",
+                             f"ScopedFactor({v}.factor.replace(values=None), reduced={v}.reduced)"], fx.elt) is not None
     ctx.check(ok, "C04.R3", "the recorded copy (without values) keeps reduced flags and scale", cp.where, ctx.construct(cp, text="copy"),
               "ScopedTerm.copy(without_values=True) must keep `reduced` and `scale`")
     SK = """
